@@ -90,6 +90,23 @@ Copy(t, src, dst) ==
             \cup {[n EXCEPT !.p = Rebase(n.p, src, dst)] : n \in Subtree(t, src)})
     ELSE Fail(t)
 
+(* copy with options: `shallow` copies only the immediate members (member     *)
+(* groups become empty groups), `noattrs` copies no attributes at all.       *)
+CopyX(t, src, dst, shallow, noattrs) ==
+    IF src # <<>> /\ Has(t, src) /\ CanCreate(t, dst)
+    THEN LET part == {n \in Subtree(t, src) : ~shallow \/ Len(n.p) <= Len(src) + 1}
+             strip(n) == IF noattrs THEN [n EXCEPT !.a = <<>>] ELSE n
+         IN Ok(WithAncestors(t, dst)
+               \cup {[strip(n) EXCEPT !.p = Rebase(n.p, src, dst)] : n \in part})
+    ELSE Fail(t)
+
+(* require_dataset with matching shape and type: returns the existing dataset, *)
+(* creates it when absent, fails if a group is in the way                     *)
+RequireDataset(t, p, val) ==
+    IF IsData(t, p) THEN Ok(t)
+    ELSE IF Has(t, p) THEN Fail(t)
+    ELSE SetDataset(t, p, val)
+
 (* move = rename of the subtree.  Moving into the own subtree has no        *)
 (* reference behaviour (raw HDF5 detaches the subtree) and is excluded by   *)
 (* the drivers; the reference refuses it.                                   *)
@@ -116,6 +133,8 @@ Apply(t, e) ==
       [] e.op = "copy"          -> Copy(t, e.p, e.q)
       [] e.op = "move"          -> Move(t, e.p, e.q)
       [] e.op = "require_group" -> RequireGroup(t, e.p)
+      [] e.op = "copyx"         -> CopyX(t, e.p, e.q, e.shallow, e.noattrs)
+      [] e.op = "require_dataset" -> RequireDataset(t, e.p, e.v)
       [] OTHER                  -> Ok(t)       \* observations and boundaries: stutter
 
 (* Observations derived from a tree.                                        *)
